@@ -2,6 +2,7 @@ package logqlmetric
 
 import (
 	"regexp"
+	"slices"
 
 	"github.com/cespare/xxhash/v2"
 
@@ -30,6 +31,19 @@ type AggregatedLabels interface {
 // emptyLabels is a label set without labels. Its grouping key is the hash of no label
 // pairs: the key every other AggregatedLabels implementation computes for an empty set.
 type emptyLabels struct{}
+
+// sortedKeys returns keys of m in ascending order.
+//
+// Series are emitted in this order: results (and everything computed from them
+// downstream, like a floating-point sum) must not depend on map iteration order.
+func sortedKeys[V any](m map[GroupingKey]V) []GroupingKey {
+	keys := make([]GroupingKey, 0, len(m))
+	for key := range m {
+		keys = append(keys, key)
+	}
+	slices.Sort(keys)
+	return keys
+}
 
 func (l *emptyLabels) By(_ ...logql.Label) AggregatedLabels                      { return l }
 func (l *emptyLabels) Without(_ ...logql.Label) AggregatedLabels                 { return l }
